@@ -54,6 +54,7 @@ type plJob struct {
 	Lazy      int       `json:"lazy"`      // the consumer takes a message with probability 1/Lazy per move
 	Retire    int       `json:"retire"`    // dynamic workers: how many workers are told to quit during the data phase
 	Filter    []uint32  `json:"filter"`    // sflow-type-filter
+	Poison    []int     `json:"poison"`    // what a recycled buffer holds behind the datagram just read: repeated well-formed sets / records
 	Free      bool      `json:"free"`      // no gates: the workers run in parallel as in the collector (used under the race detector)
 	Mirror    string    `json:"mirror"`    // "": mirroring off; "on": enabled, the copies are taken and given back like the mirror workers do; "full": enabled and the mirror queue is full
 }
@@ -114,11 +115,11 @@ type plHook struct {
 type plWorker struct {
 	quit     chan struct{}
 	retiring bool
-	id     int // small worker number
-	gate   string
-	body   []byte
-	d      int
-	resume chan struct{}
+	id       int // small worker number
+	gate     string
+	body     []byte
+	d        int
+	resume   chan struct{}
 }
 
 // protocol adapter
@@ -132,7 +133,7 @@ type plProto struct {
 	alone   func(tpls []plDgram, d plDgram) []byte
 	class   func(tpls []plDgram, d plDgram) string
 	mirror  func(mode string) (restore func()) // nil: the protocol has no mirror
-	mdrain  func() [][]byte                     // the copies queued for the mirror workers, taken out (full backing buffers)
+	mdrain  func() [][]byte                    // the copies queued for the mirror workers, taken out (full backing buffers)
 }
 
 func plAdapter(proto string, size int) plProto {
@@ -141,9 +142,9 @@ func plAdapter(proto string, size int) plProto {
 		opts.IPFIXUDPSize = size
 		i := &IPFIX{}
 		return plProto{pool: ipfixBuffer, mq: ipfixMQCh,
-			send:    func(r *net.UDPAddr, b []byte) { ipfixUDPCh <- IPFIXUDPMsg{r, b} },
-			qlen:    func() int { return len(ipfixUDPCh) },
-			start:   func(q chan struct{}) { go i.ipfixWorker(q) },
+			send:  func(r *net.UDPAddr, b []byte) { ipfixUDPCh <- IPFIXUDPMsg{r, b} },
+			qlen:  func() int { return len(ipfixUDPCh) },
+			start: func(q chan struct{}) { go i.ipfixWorker(q) },
 			mirror: func(mode string) func() {
 				ipfixMirrorEnabled = true
 				if mode == "full" {
@@ -255,8 +256,8 @@ func plAdapter(proto string, size int) plProto {
 		opts.SFlowUDPSize = size
 		s := &SFlow{}
 		return plProto{pool: sFlowBuffer, mq: sFlowMQCh,
-			send:    func(r *net.UDPAddr, b []byte) { sFlowUDPCh <- SFUDPMsg{r, b} },
-			qlen:    func() int { return len(sFlowUDPCh) },
+			send: func(r *net.UDPAddr, b []byte) { sFlowUDPCh <- SFUDPMsg{r, b} },
+			qlen: func() int { return len(sFlowUDPCh) },
 			mirror: func(mode string) func() {
 				sFlowMirrorEnabled = true
 				if mode == "full" {
@@ -490,14 +491,20 @@ func plRun(job plJob) (res plResult) {
 	feed := func(d plDgram, n int) {
 		b := ad.pool.Get().([]byte)
 		full := b[:cap(b)]
-		for i := range full {
-			full[i] = 0xEE
-		}
 		body := plBytes(d.Buf)
 		if len(body) > cap(b) { // what the socket read does with a datagram longer than the buffer
 			body = body[:cap(b)]
 		}
-		copy(b, body)
+		copy(full, body)
+		// behind the datagram the buffer holds what an earlier, longer datagram left there: here, octets that would
+		// decode as further sets / records if anybody read past the datagram's end
+		for i := len(body); i < len(full); i++ {
+			if len(job.Poison) > 0 {
+				full[i] = byte(job.Poison[(i-len(body))%len(job.Poison)])
+			} else {
+				full[i] = 0xEE
+			}
+		}
 		id := idOf(b)
 		ev(plEvent{Ev: "Recv", D: n, B: id, N: len(body)})
 		ad.send(&net.UDPAddr{IP: plBytes(d.Exp), Port: 4000}, b[:len(body)])
@@ -695,6 +702,9 @@ func plRunFree(job plJob) (res plResult) {
 		}
 		b = b[:cap(b)]
 		copy(b, body)
+		for i := len(body); i < len(b) && len(job.Poison) > 0; i++ {
+			b[i] = byte(job.Poison[(i-len(body))%len(job.Poison)])
+		}
 		ad.send(&net.UDPAddr{IP: plBytes(d.Exp), Port: 4000}, b[:len(body)])
 	}
 	idle := func(limit time.Duration) {
